@@ -34,24 +34,21 @@ Proof.
       * apply IH. repeat split; auto.
 Qed.
 
-Lemma NoDup_flat_map_disjoint {A B} (f : A -> list B) : forall l a b x,
-  NoDup (flat_map f l) -> In a l -> In b l -> In x (f a) -> In x (f b) -> a = b \/ False.
+Lemma NoDup_flat_map_elem {A B} (f : A -> list B) : forall l a,
+  NoDup (flat_map f l) -> In a l -> NoDup (f a).
 Proof.
-  (* only used through the positional form below; kept simple: distinct positions clash *)
-  induction l as [|k r IH]; intros a b x Hn Ha Hb Hxa Hxb; simpl in *; [tauto|].
+  induction l as [|k r IH]; intros a Hn Ha; simpl in *; [tauto|].
   apply NoDup_app_iff in Hn. destruct Hn as (H1 & H2 & H3).
-  destruct Ha as [->|Ha], Hb as [->|Hb]; auto.
-  - right. apply (H3 x Hxa). apply in_flat_map. eauto.
-  - right. apply (H3 x Hxb). apply in_flat_map. eauto.
+  destruct Ha as [->|Ha]; auto.
 Qed.
 
 Lemma Permutation_flat_map_app {A B} (f g : A -> list B) : forall l,
   Permutation (flat_map (fun a => f a ++ g a) l) (flat_map f l ++ flat_map g l).
 Proof.
   induction l as [|a l IH]; simpl; [constructor|].
-  rewrite <- app_assoc. apply Permutation_app_head.
+  rewrite <- !app_assoc. apply Permutation_app_head.
   eapply Permutation_trans; [apply Permutation_app_head; exact IH|].
-  rewrite !app_assoc. apply Permutation_app_tail. apply Permutation_app_comm.
+  apply Permutation_app_swap_app.
 Qed.
 
 Lemma Permutation_flat_map_pointwise {A B} (f g : A -> list B) : forall l,
